@@ -123,6 +123,31 @@ fn check(exact: bool) -> impl Fn(&Case) -> Verdict + Send + Sync {
     }
 }
 
+/// ultra-long runs (past 2^16 and 2^17 updates) in f64: x, y from two seeds on the 1/8 grid, a, b dyadic; ints = [view, seed, len, shape]
+fn ultra_cases(tier: Tier) -> Vec<Case> {
+    let len = tier.pick(135_000usize, 1_100_000usize);
+    let mut out = vec![];
+    for (i, lin) in LINEAR.iter().enumerate() {
+        for (j, n) in [lin.min_n.max(3), 16].into_iter().enumerate() {
+            out.push(Case { spec: Some((lin.mk)(n, 5 + 3 * j)), a: Rat(3 - 8 * j as i64, 8), b: Rat(5, 8), ints: vec![i as i64, 0xC10_0000 + 17 * i as i64 + j as i64, len as i64, ((i + j) % 4) as i64], ..Default::default() });
+        }
+    }
+    out
+}
+fn ultra_check(case: &Case) -> Verdict {
+    let (seed, len, shape) = (case.ints[1] as u64, case.ints[2] as usize, case.ints[3]);
+    let xs = gen::to_rats(&gen::ultra_stream(seed, len, shape), Rat(1, 8));
+    let ys = gen::to_rats(&gen::ultra_stream(seed ^ 0x5A5A5A, len, (shape + 1) % 4), Rat(1, 8));
+    let full = Case { xs, ys, ..case.clone() };
+    match check(false)(&full) {
+        Verdict::Fail { sig, msg } => {
+            let cut = msg.find("; x = ").unwrap_or(msg.len());
+            Verdict::Fail { sig: sig.replace("/superposition/", "/ultra/"), msg: format!("{} (x = ultra_stream(seed {seed}, len {len}, shape {shape}), y = ultra_stream(seed ^ 0x5A5A5A, len, shape + 1 mod 4), grid 1/8)", &msg[..cut]) }
+        }
+        v => v,
+    }
+}
+
 // ------------------------------------------------------------------------------------------------ DC clauses (enumerated over N)
 
 pub fn n_grid() -> Vec<usize> {
@@ -193,6 +218,7 @@ pub fn clauses() -> Vec<Clause> {
         v.push(Clause::generated("C10", format!("C10/{}/superposition/Q", lin.name), format!("{g} Oracle: out_z = a out_x + b out_y and identical readiness at every step, exactly in Q. Non-trivial: x != y, >= 3 steps compared, >= 2 distinct combined outputs."), if heavy { 500 } else { 1200 }, 30_000, strategy(i, true), check(true)).with_shard(if heavy { 32 } else { 100 }));
         v.push(Clause::generated("C10", format!("C10/{}/superposition/f64", lin.name), format!("{g} f64 with dyadic a, b (a x + b y exact); tolerance 1e-9 (|a| max|out_x| + |b| max|out_y| + max|x,y| + 1)."), 1500, 40_000, strategy(i, false), check(false)).with_shard(500));
     }
+    v.push(Clause::enumerated("C10", "C10/ultra/enumerated", "Enumerated: every linear view (incl. the custom constructors) at two windows (minimum or 3; 16), x and y of 135 000 values each (thorough 1.1e6; past 2^16 and 2^17 updates) from two seeds on the 1/8 grid, a in {3/8, -5/8}, b = 5/8; f64, same oracle and tolerance as the f64 superposition clauses at every step.", ultra_cases, ultra_check).with_shard(2));
     v.push(Clause::enumerated("C10", "C10/dc/enumerated", "Enumerated: every N in 1..64 and {72, 81, 96, 100, 128, 160, 200, 256, 333, 400, 512, 700, 1024} (CyberCycle from 3; RoofingFilter with M in {1,3,10}), constant stream c of length 2T, T = 100 max(N, M, 25): SuperSmoother within 1e-6|c| of c, RoofingFilter and CyberCycle within 1e-6|c| of 0 on [T, 2T] (f64); LaguerreFilter returns c exactly from its first output for every gamma of the grid (Q). (Sma, Ema, Alma: C04/constant.)", dc_cases, dc_check).with_shard(16));
     v
 }
